@@ -21,7 +21,7 @@ import subprocess
 import sys
 import time
 
-REPO = '/repo'
+REPO = os.environ.get('VERIF_REPO', '/repo')
 PLUGIN = REPO + '/protoc-gen-c/protoc-gen-c'
 HARNESS = os.path.dirname(os.path.dirname(os.path.abspath(__file__)))
 FD_DUMP_SRC = os.path.join(HARNESS, 'cxx', 'fd_dump.cc')
@@ -32,7 +32,7 @@ RUNTIME_C = REPO + '/protobuf-c/protobuf-c.c'
 RUNTIME_H = REPO + '/protobuf-c/protobuf-c.h'
 SYS_INCLUDE = '/usr/include'
 
-DEFAULT_BUILDDIR = os.environ.get('GENLOOP_BUILDDIR') or '/verif/build/genloop'
+DEFAULT_BUILDDIR = os.environ.get('GENLOOP_BUILDDIR') or os.path.join(os.path.dirname(os.path.dirname(os.path.dirname(os.path.abspath(__file__)))), 'build', 'genloop')
 DEFAULT_SCRATCH = os.environ.get('GENLOOP_SCRATCH') or '/tmp/genloop_scratch'
 
 CFLAGS_GEN = ['-Wall', '-Werror=implicit-function-declaration']
